@@ -6,6 +6,7 @@ package prolog
 // '?' placeholders behave like the literal.
 
 import (
+	"bytes"
 	"math"
 	"strings"
 
@@ -187,6 +188,9 @@ func parseWith(i *Interpreter, text string, args ...interface{}) (engine.Term, e
 	return p.Term()
 }
 
+// vOut receives what the interpreter under test writes to user_output.
+var vOut bytes.Buffer
+
 func newBare() *Interpreter {
 	var i Interpreter
 	return &i
@@ -195,7 +199,7 @@ func newBare() *Interpreter {
 // newFull returns an interpreter built by the real New() (registration + bootstrap); under symgo it is built
 // once per worker and every path starts from a heap snapshot of it.
 func newFull() *Interpreter {
-	return setupOnce("New", func() interface{} { return New(nil, nil) }).(*Interpreter)
+	return setupOnce("New", func() interface{} { return New(strings.NewReader(""), &vOut) }).(*Interpreter)
 }
 
 var c15NumKinds = []string{"int", "int8", "int16", "int32", "int64", "float64", "float32"}
